@@ -122,6 +122,7 @@ type c18Req struct {
 	start                   int64 // oracle: height whose begin-block started the context
 	svcReq                  string
 	why                     string
+	orphan                  bool // fault injected: the service context was removed while the request was queued
 }
 
 type c18Machine struct {
@@ -135,6 +136,7 @@ type c18Machine struct {
 	nMultiDue, nMultiDueSameWho, nOracleOK, nOracleDone, nBadBody, nErrResp, nTimeout, nSkipped, nNoBinding int
 	nOracleRefused, nOracleLax                                                                              int
 	nZeroInterval, nLarge, nMeta, nPlainDone, nFeeRefused                                                   int
+	nStartFailed                                                                                            int
 }
 
 const c18Requesters = 4 // U0..U3; U4 = unrelated requester on metamorphic branches; U5 = provider
@@ -167,6 +169,17 @@ func (m *c18Machine) Next(t *rapid.T) c18Op {
 		if r.oracle {
 			oracles = append(oracles, i)
 		}
+	}
+	var queuedOracles []int
+	for i, r := range m.reqs {
+		if r.oracle && r.state == c18Queued && !r.orphan && r.due-m.c.Height() <= 20 {
+			queuedOracles = append(queuedOracles, i)
+		}
+	}
+	if len(queuedOracles) > 0 && rapid.IntRange(0, 11).Draw(t, "orphan?") == 0 {
+		// fault injection: the service context of a pending oracle request vanishes (a state that a genesis import
+		// with a dangling request produces), so the service call cannot be started at the due block
+		return c18Op{Kind: "orphan", Target: rapid.SampledFrom(queuedOracles).Draw(t, "orphan")}
 	}
 	k := rapid.IntRange(0, 99).Draw(t, "kind")
 	switch {
@@ -229,6 +242,8 @@ func (m *c18Machine) Apply(op c18Op) error {
 		return m.applyBlock(op)
 	case "respond":
 		return m.applyRespond(op)
+	case "orphan":
+		return m.applyOrphan(op)
 	}
 	return fmt.Errorf("unknown op kind %q", op.Kind)
 }
@@ -405,7 +420,11 @@ func (m *c18Machine) applyBlock(op c18Op) error {
 	wantGen := map[string]int{}
 	wantSvc := map[string]int{}
 	for _, r := range due {
-		if r.oracle {
+		if r.oracle && r.orphan {
+			// the service call cannot be started: the request leaves the queue and never yields a number
+			r.state, r.why = c18Dead, "service call could not be started"
+			m.nStartFailed++
+		} else if r.oracle {
 			r.state, r.start = c18Started, H+1
 			wantSvc[r.id]++
 		} else {
@@ -456,6 +475,25 @@ func c18SameIDs(got []string, want map[string]int) error {
 		}
 	}
 	return nil
+}
+
+func (m *c18Machine) applyOrphan(op c18Op) error {
+	if op.Target < 0 || op.Target >= len(m.reqs) {
+		return nil
+	}
+	r := m.reqs[op.Target]
+	if !r.oracle || r.state != c18Queued || r.orphan {
+		return nil
+	}
+	ctxID, err := hex.DecodeString(r.ctxID)
+	if err != nil {
+		return fmt.Errorf("harness: %v", err)
+	}
+	if !m.c.RawDelete("service", servicetypes.GetRequestContextKey(ctxID)) {
+		return fmt.Errorf("harness: request context %s of oracle request %s not in the service store", r.ctxID, r.id)
+	}
+	r.orphan = true
+	return m.check()
 }
 
 func (m *c18Machine) applyRespond(op c18Op) error {
@@ -631,6 +669,7 @@ func (m *c18Machine) Classify() (bool, []string) {
 	add(m.nBadBody > 0, "oracle-invalid-body")
 	add(m.nErrResp > 0, "oracle-error-response")
 	add(m.nTimeout > 0, "oracle-timeout")
+	add(m.nStartFailed > 0, "oracle-start-failed")
 	add(m.nSkipped > 0, "oracle-fee-cap-below-price")
 	add(m.nNoBinding > 0, "oracle-without-binding-refused")
 	add(m.nFeeRefused > 0, "oracle-fee-cap-above-balance-refused")
@@ -643,7 +682,7 @@ func (m *c18Machine) Classify() (bool, []string) {
 	return m.nMultiDue > 0 && m.nOracleOK > 0, cl
 }
 
-const c18Rule = "rapid state machine: bind provider / request (4 requesters, at most one per requester per block; interval joining a pending due height, 0..20, or large up to 2^62; plain or oracle with fee cap above/below the price or above the balance) / block (generated app hash and time step; optionally also on a branch with an unrelated extra request) / provider response (valid seed, schema-violating body, error result, or none until the timeout of 3 blocks); non-trivial = history with >=2 requests due at one height and >=1 accepted oracle request; distinct by SHA-256 of the op list"
+const c18Rule = "rapid state machine: bind provider / request (4 requesters, at most one per requester per block; interval joining a pending due height, 0..20, or large up to 2^62; plain or oracle with fee cap above/below the price or above the balance) / block (generated app hash and time step; optionally also on a branch with an unrelated extra request) / provider response (valid seed, schema-violating body, error result, or none until the timeout of 3 blocks) / fault injection: the service context of a queued oracle request removed from the store, so the service call cannot start at the due block; non-trivial = history with >=2 requests due at one height and >=1 accepted oracle request; distinct by SHA-256 of the op list"
 
 func init() { pbt.RegisterMachine("c18", newC18) }
 
